@@ -969,9 +969,18 @@ def check_c13(scn):
 
 
 def gen_c13(rng, size=50):
-    flavour = rng.choice(["substring", "substring", "suffix", "helper", "helper", "random", "random", "random"])
+    flavour = rng.choice(["substring", "substring", "suffix", "helper", "helper", "random", "random", "random", "alias"])
     members = None
-    if flavour == "substring":
+    if flavour == "alias":
+        # an independent indicator that the user named like one of a composite's INTERNAL registry aliases
+        # (managed_indicators keys such as "signal", "dx", "ST_data"): a legal, distinct top-level name
+        comp, aliases = rng.choice([("MACD", ["signal"]), ("ADX", ["dx", "ADX_data"]), ("STOCH", ["STOCH_d", "STOCH_data"]), ("HMA", ["raw_HMA"]),
+                                    ("Supertrend", ["ST_data"]), ("RSI", ["RSI_data"]), ("TSI", ["TSI_data"]), ("VWAP", ["VWAP_data"]),
+                                    ("STDEV", ["STDEV_data"])])
+        other = gen_spec(rng, kind=rng.choice(["EMA", "SMA", "RMA", "WMA", "ROC"]))
+        other["params"]["fullname_override"] = rng.choice(aliases)
+        members = [other, gen_spec(rng, kind=comp)]     # observe the alias-named one, operate on the composite
+    elif flavour == "substring":
         # the short name is a substring of the long one: EMA_3 / EMA_30, SMA_1 / SMA_12, WMA_2 / VWMA_20, TR / ATR_14 ...
         kind = rng.choice(["EMA", "EMA", "SMA", "RMA", "WMA", "HL", "VWMA", "ATR", "STDEV", "WMA/VWMA", "TR/ATR", "HLA/HL"])
         if kind == "WMA/VWMA":
@@ -1634,7 +1643,26 @@ def check_c20(scn):
     names = [member_name(m) for m in scn["members"]]
     try:
         obj = _build_target(scn, cm.mk_candles(stream[:init]))
-        _drive(obj, scn, lambda j, consumed: None)
+
+        def ask_early(j, consumed):
+            # the accessors are also asked after every earlier step (a user polling a live feed): what they answer at the end must
+            # not depend on having been asked before (caches that miss a trim / a merge / a purge)
+            if not scn.get("poll"):
+                return None
+            for n_ in names:
+                ind_ = obj.indicator(n_) if target == "hexital" else obj
+                try:
+                    ind_.as_list()
+                    ind_.reading()
+                    ind_.reading_count()
+                    if target == "hexital":
+                        obj.reading_as_list(n_)
+                        obj.reading(n_)
+                except Exception:
+                    pass
+            return None
+
+        _drive(obj, scn, ask_early)
     except Exception as e:
         return {"skip": f"raises {type(e).__name__}"}
     hx = obj if target == "hexital" else None
@@ -1752,8 +1780,9 @@ def gen_c20(rng, size=40):
     price = "zerovol" if (flavour == "zeroish" and rng.random() < 0.4) else None
     stream, smeta = gen_stream_for(rng, n, base_tf, True, price_style=price)
     (init, chunks), shape = gen.gen_schedule(rng, n)
-    scn = {"check": "c20", "target": target, "hx": cfg, "members": members, "keep_members": True, "stream": stream, "init": init, "chunks": chunks}
-    meta = {"target": target, "flavour": flavour, "price": smeta["price"], "schedule": shape, "members": len(members),
+    scn = {"check": "c20", "target": target, "hx": cfg, "members": members, "keep_members": True, "stream": stream, "init": init, "chunks": chunks,
+           "poll": rng.random() < 0.5}
+    meta = {"target": target, "flavour": flavour, "poll": scn["poll"], "price": smeta["price"], "schedule": shape, "members": len(members),
             "timeframes": len({m["tf"] for m in members if m["tf"]}) + 1}
     for m in members:
         meta[f"kind:{spec_label(m)}"] = True
